@@ -92,6 +92,21 @@ func linOf(v ssa.Value) Lin { return linOfS(v, map[ssa.Value]bool{}) }
 func linOfS(v ssa.Value, seen map[ssa.Value]bool) Lin {
 	linOf := func(v ssa.Value) Lin { return linOfS(v, seen) }
 	switch x := v.(type) {
+	case *ssa.Parameter:
+		if site := helperSite[x.Parent()]; site != nil {
+			for i, pr := range x.Parent().Params {
+				if pr == x && i < len(site.Call.Args) {
+					return linOf(site.Call.Args[i])
+				}
+			}
+		}
+	case *ssa.Call:
+		if h := isInlined(x); h != nil && h.Signature.Results().Len() == 1 {
+			vf := vfuncOf(h)
+			if rs := vf.rets[h]; len(rs) == 1 {
+				return linOf(rs[0].Results[0])
+			}
+		}
 	case *ssa.Const:
 		if x.Value != nil && x.Value.Kind() == constant.Int {
 			if i, ok := constant.Int64Val(x.Value); ok {
@@ -207,23 +222,28 @@ func cmpHyps(cond ssa.Value, polarity bool) []Hyp {
 	return nil
 }
 
-// hypsAt collects the comparisons that hold on entry to block b: for each
-// block on b's dominator chain that is the unique-predecessor successor of an If.
+// hypsAt collects the comparisons that hold on entry to block b (on the spliced
+// CFG: for a block of a helper this includes the conditions dominating its call site).
 func hypsAt(b *ssa.BasicBlock) []Hyp {
+	vf := vfuncOf(b.Parent())
+	return hypsAtNode(vf.first[b])
+}
+
+func hypsAtNode(n *VNode) []Hyp {
 	var out []Hyp
-	for cur := b; cur != nil; cur = cur.Idom() {
+	for cur := n; cur != nil; cur = cur.Idom() {
 		if len(cur.Preds) != 1 {
 			continue
 		}
 		p := cur.Preds[0]
-		if len(p.Instrs) == 0 {
+		if len(p.Instrs) == 0 || len(p.Succs) != 2 {
 			continue
 		}
 		iff, ok := p.Instrs[len(p.Instrs)-1].(*ssa.If)
 		if !ok || p.Succs[0] == p.Succs[1] {
 			continue
 		}
-		if !wrapFree(iff.Cond, p) {
+		if !wrapFreeNode(iff.Cond, p) {
 			continue // the comparison is over a possibly wrapped value: it says nothing about the ideal integers
 		}
 		out = append(out, cmpHyps(iff.Cond, p.Succs[0] == cur)...)
@@ -234,6 +254,11 @@ func hypsAt(b *ssa.BasicBlock) []Hyp {
 // wrapFree: every unsigned subtraction inside the comparison's operands is
 // shown non-wrapping by comparisons that dominate the comparison itself.
 func wrapFree(cond ssa.Value, at *ssa.BasicBlock) bool {
+	vf := vfuncOf(at.Parent())
+	return wrapFreeNode(cond, vf.last[at])
+}
+
+func wrapFreeNode(cond ssa.Value, at *VNode) bool {
 	var subs []*ssa.BinOp
 	seen := map[ssa.Value]bool{}
 	var walk func(v ssa.Value, d int)
@@ -261,10 +286,7 @@ func wrapFree(cond ssa.Value, at *ssa.BasicBlock) bool {
 	if len(subs) == 0 {
 		return true
 	}
-	var hyps []Hyp
-	if id := at.Idom(); id != nil || len(at.Preds) == 1 {
-		hyps = hypsAt(at)
-	}
+	hyps := hypsAtNode(at)
 	for _, sb := range subs {
 		if ok, _ := entails(hyps, linOf(sb.Y).add(linOf(sb.X), -1)); !ok {
 			return false
@@ -274,13 +296,18 @@ func wrapFree(cond ssa.Value, at *ssa.BasicBlock) bool {
 }
 
 // edgeHyps: the comparisons that hold when control enters phiBlock from pred #i
-// (in addition to hypsAt(pred)).
+// (in addition to the hypotheses at the end of that predecessor).
 func edgeHyps(phiBlock *ssa.BasicBlock, i int) []Hyp {
-	p := phiBlock.Preds[i]
-	out := hypsAt(p)
-	if len(p.Instrs) > 0 {
-		if iff, ok := p.Instrs[len(p.Instrs)-1].(*ssa.If); ok && p.Succs[0] != p.Succs[1] && wrapFree(iff.Cond, p) {
-			out = append(out, cmpHyps(iff.Cond, p.Succs[0] == phiBlock)...)
+	vf := vfuncOf(phiBlock.Parent())
+	p := vf.last[phiBlock.Preds[i]]
+	to := vf.first[phiBlock]
+	if p == nil || to == nil {
+		return nil
+	}
+	out := hypsAtNode(p)
+	if len(p.Instrs) > 0 && len(p.Succs) == 2 {
+		if iff, ok := p.Instrs[len(p.Instrs)-1].(*ssa.If); ok && p.Succs[0] != p.Succs[1] && wrapFreeNode(iff.Cond, p) {
+			out = append(out, cmpHyps(iff.Cond, p.Succs[0] == to)...)
 		}
 	}
 	return out
@@ -330,6 +357,28 @@ type Case struct {
 
 // cases expands phis (to the given depth) into their edge values with edge conditions.
 func cases(v ssa.Value, base []Hyp, depth int) []Case {
+	if pr, ok := v.(*ssa.Parameter); ok && depth > 0 {
+		if site := helperSite[pr.Parent()]; site != nil {
+			for i, q := range pr.Parent().Params {
+				if q == pr && i < len(site.Call.Args) {
+					return cases(site.Call.Args[i], base, depth)
+				}
+			}
+		}
+	}
+	if call, ok := v.(*ssa.Call); ok && depth > 0 {
+		if h := isInlined(call); h != nil && h.Signature.Results().Len() == 1 {
+			vf := vfuncOf(h)
+			var out []Case
+			for _, r := range vf.rets[h] {
+				hy := append(append([]Hyp{}, base...), hypsAtNode(vf.nodeOf[r])...)
+				out = append(out, cases(r.Results[0], hy, depth-1)...)
+			}
+			if len(out) > 0 {
+				return out
+			}
+		}
+	}
 	if ph, ok := v.(*ssa.Phi); ok && depth > 0 {
 		var out []Case
 		for i, e := range ph.Edges {
